@@ -35,7 +35,7 @@ COMPONENTS = {
     "real": ["eolib.packet.PacketSequencer", "eolib.packet.sequence_start.*", "EoWriter/EoReader for every message"],
     "stub_or_harness": ["SimNet (virtual-time FIFO network)", "client/server node scripts", "SimRandom"],
 }
-PROBES = ["earlier_start_object_installed_again", "sequencer_subclass_with_own_constructor", "start_constructed_ahead_of_hand_over", "start_object_changed_in_place", "user_start_derived_from_library_class", "update_at_counter_9", "update_at_counter_0", "back_to_back_updates", "update_with_packets_in_flight",
+PROBES = ["sequencer_looked_at", "earlier_start_object_installed_again", "sequencer_subclass_with_own_constructor", "start_constructed_ahead_of_hand_over", "start_object_changed_in_place", "user_start_derived_from_library_class", "update_at_counter_9", "update_at_counter_0", "back_to_back_updates", "update_with_packets_in_flight",
           "three_wraparounds_between_updates", "reconnect", "sequence_sent_as_short", "two_pings_outstanding",
           "request_from_another_thread"]
 FAULT_KINDS = ["start_in_force_broken_at_update", "latency_jitter", "start_update_mid_burst", "reconnect", "start_unreadable_during_request", "update_during_request"]
@@ -78,6 +78,10 @@ def generate(streams, tier):
             continue
         if rng.random() < 0.04:
             local.append(["install_prepared"])
+            continue
+        if rng.random() < 0.05:
+            # the sequencer is looked at the way Python programs look at objects (logging, debugging, assertions)
+            local.append(["look", rng.choice(["repr", "str", "format", "dir", "vars", "bool", "eq", "hash", "copy"])])
             continue
         if rng.random() < 0.03:
             # the start in force has become unreadable for good; the application repairs the session with a new start
@@ -412,6 +416,34 @@ def run_local(plan, s, res, tr):
             prepared.append(ProbeStart(op[1]))       # constructing a start changes nothing that is in force
             res.count("probe.start_constructed_ahead_of_hand_over")
             tr.ev("local", "prepare", op[1])
+        elif op[0] == "look":
+            import copy as _copy
+            try:
+                how = op[1]
+                if how == "repr":
+                    repr(seq)
+                elif how == "str":
+                    str(seq)
+                elif how == "format":
+                    f"{seq} {seq!r}"
+                elif how == "dir":
+                    for name in dir(seq):
+                        if not name.startswith("__") and not callable(getattr(type(seq), name, None)):
+                            getattr(seq, name, None)         # attributes and properties, not methods
+                elif how == "vars":
+                    dict(vars(seq))
+                elif how == "bool":
+                    bool(seq)
+                elif how == "eq":
+                    _ = (seq == seq, seq != 3)
+                elif how == "hash":
+                    hash(seq)
+                else:
+                    _copy.copy(seq)
+            except Exception:  # noqa  (whether a sequencer can be hashed / copied is not the property)
+                pass
+            res.count("probe.sequencer_looked_at")
+            tr.ev("local", "look", op[1])
         elif op[0] == "replace_broken":
             state["broken"] = installed
             fresh = ProbeStart(op[1])
